@@ -1,5 +1,6 @@
 import Cherab.Props.C01Table
 import Cherab.Props.C01Notifier
+import Cherab.Props.C01Subscription
 open Cherab.Props.C01
 #print axioms Inval.inv_run
 #print axioms Inval.no_stale
@@ -14,3 +15,13 @@ open Cherab.Props.C01
 #print axioms no_uncleared_sentinels
 #print axioms no_stale_cherab
 #print axioms notifier_exact
+#print axioms setter_inv
+#print axioms run_inv
+#print axioms run_cur
+#print axioms add_then_remove_breaks
+#print axioms add_then_remove_ok_if_distinct
+#print axioms add_if_none_breaks
+#print axioms all_setters_canonical
+#print axioms no_setter_problems
+#print axioms setter_table_nonempty
+#print axioms no_stale_subscription
